@@ -154,6 +154,16 @@ CLAIMED["C04"] = dict(
     note=FS_NOTE,
 )
 
+CLAIMED["C11"] = dict(
+    engine="symx",
+    technique="symbolic execution of the real Put and lookup code over a snapshot-versioned file-system model: the reader's observation points (one snapshot index per file operation, monotone) and torn-write offsets are solver-chosen, data bytes symbolic",
+    text=("One writer and one reader: the writer's PutBytes runs on a model that records a snapshot after every mutation (each multi-byte write also half done); the reader's GetBytes/GetFile then runs with every file operation "
+          "observing a solver-chosen later-or-equal snapshot, which covers every interleaving of their file operations. Asserted: a successful lookup returns bytes some Put stored for that id with matching digest and size, "
+          "re-storing identical content never makes the lookup miss, and a lookup started after the writer finished returns the latest bytes."),
+    design_ref="DESIGN.md §4 C11",
+    note=FS_NOTE,
+)
+
 NOT_APPLICABLE = {
     "C20": "goproxytest's behaviour lives in net/http, archive/zip+flate, encoding/json (reflection) and directory walks; none is encodable by the SSA symbolic executor, and with them stubbed nothing solver-relevant remains (its once-per-key ingredient is par.Cache = C10)",
 }
